@@ -15,10 +15,11 @@
      Pack            pack_prefix + pack_share: the packed string is the SDMF table
      Read            Expect (value or BadShareError), Covered (no remote read for prefetched bytes), round trips
      Unpack          unpack_share on the container's bytes
+     UnpackSmall     get_version_from_checkstring, unpack_sdmf_checkstring / unpack_mdmf_checkstring, unpack_header
      Damage          the environment truncated / poked / removed the container: only the image is taken over
 
    consts.soft: clauses listed as known findings (see extras/mutable_layout/check.py): printed as VF_NOTE
-   "K:<clause>:<event>:<tid>:<l>", the code's behaviour is taken over, validation continues. *)
+   "K:<clause>:<event>" (kept short: TLC wraps long lines), the code's behaviour is taken over, validation continues. *)
 EXTENDS MutableLayout, Json, IOUtils, TLCExt
 
 Traces == JsonDeserialize(IOEnv.TRACE_FILE)
@@ -33,7 +34,7 @@ tvars == <<tid, l, bad, img, ws, rs, hd>>
 Events == Traces[tid].events
 Ev == Events[l]
 Soft(c) == c \in ToSet(Traces[tid].consts.soft)
-Known(c, evname) == Soft(c) /\ PrintT(<<"VF_NOTE", tid, l, "K:" \o c \o ":" \o evname \o ":" \o ToString(tid) \o ":" \o ToString(l)>>)
+Known(c, evname) == Soft(c) /\ PrintT(<<"VF_NOTE", tid, l, "K:" \o c \o ":" \o evname>>)
 
 R(c, i, w, r) == [c |-> c, img |-> i, ws |-> w, rs |-> r]
 Fail(c) == R(c, img, ws, rs)
@@ -130,7 +131,7 @@ VFinish(e) ==
          ELSE IF Len(e.calls) # 0 THEN Fail("W_refused_finish_sent_something")
          ELSE IF I2 # img THEN Fail("W_refused_finish_changed_container")
          ELSE IF strict /\ e.res # "LayoutInvalid" /\ OnlyTreeMissing(T.w)
-                 /\ ~Known("W_finish_without_tree_not_LayoutInvalid", "Finish") THEN Fail("W_finish_without_tree_not_LayoutInvalid")
+                 /\ ~Known("W_finish_without_tree_KeyError", "Finish") THEN Fail("W_finish_without_tree_KeyError")
          ELSE IF strict /\ e.res # "LayoutInvalid" /\ ~OnlyTreeMissing(T.w) THEN Fail("W_refusal_not_LayoutInvalid")
          ELSE R("", img, ws, rs))
      ELSE IF e.res # "ok" THEN Fail("W_refused_legal_call")
@@ -140,7 +141,7 @@ VFinish(e) ==
               tvok == TestvOK(T.w, c.testv)
           IN IF c.shnums # <<T.w.shnum>> THEN Fail("T_other_share_addressed")
              ELSE IF ~tvok /\ T.w.cs.kind = "unset" /\ T.w.fmt = "sdmf" /\ T.toldEmpty /\ c.testv = <<<<0, 0, <<>>>>>>
-                     /\ ~Known("T_sdmf_empty_checkstring_passes_any_share", "Finish") THEN Fail("T_sdmf_empty_checkstring_passes_any_share")
+                     /\ ~Known("T_sdmf_empty_checkstring", "Finish") THEN Fail("T_sdmf_empty_checkstring")
              ELSE IF ~tvok /\ T.w.cs.kind = "unset" /\ ~(T.w.fmt = "sdmf" /\ T.toldEmpty /\ c.testv = <<<<0, 0, <<>>>>>>)
                   THEN Fail("T_new_share_must_be_absent")
              ELSE IF ~tvok /\ T.w.cs.kind # "unset" THEN Fail("T_existing_share_checkstring")
@@ -190,8 +191,8 @@ VRead(e) ==
               E == Expect(V, H, e.get, e.seg, emptyNeeded)
           IN IF ~e.force /\ Covered(r.pre, r.hdr, x) /\ x[2] >= x[1] /\ Len(e.remote) # 0 THEN Fail("R_remote_read_of_prefetched_bytes")
              ELSE IF e.res.st \notin {"ok", "bad"} THEN
-                  (IF E.st = "bad|empty" /\ Known("R_backwards_table_not_BadShareError", "Read") THEN Done
-                   ELSE IF E.st = "bad|empty" THEN Fail("R_backwards_table_not_BadShareError")
+                  (IF E.st = "bad|empty" /\ Known("R_backwards_table_exception", "Read") THEN Done
+                   ELSE IF E.st = "bad|empty" THEN Fail("R_backwards_table_exception")
                    ELSE Fail("R_unexpected_exception"))
              ELSE IF E.st = "ok" /\ ~okres THEN Fail("R_rejected_readable_field")
              ELSE IF E.st = "bad" /\ okres THEN Fail("R_bad_share_not_rejected")
@@ -226,6 +227,21 @@ VUnpack(e) ==
                           \/ v.share_data # Slice(img, o.share_data, o.enc_privkey) THEN Fail("U_field_is_not_what_the_table_denotes")
                   ELSE R("", img, ws, rs)
 
+\* get_version_from_checkstring + unpack_sdmf_checkstring / unpack_mdmf_checkstring, and unpack_header for SDMF, on a
+\* container that holds a complete header of a known version
+VUnpackSmall(e) ==
+  LET H == hd IN
+  IF H.status # "ok" THEN Fail("harness_unpack_small_without_header")
+  ELSE IF e.res.st # "ok" THEN Fail("U_checkstring_helpers_failed")
+  ELSE LET v == e.res.val IN
+       IF <<v.version, v.seqnum, v.root, v.salt>> # <<Version(H.fmt), H.seqnum, H.root, H.salt>> THEN Fail("U_checkstring_fields")
+       ELSE IF H.fmt = "sdmf" /\
+               (\/ <<v.hdr.version, v.hdr.seqnum, v.hdr.root, v.hdr.salt, v.hdr.k, v.hdr.n, v.hdr.segsize, v.hdr.datalen>> #
+                     <<0, H.seqnum, H.root, H.salt, H.k, H.n, H.segsize, H.datalen>>
+                \/ \E nm \in EntryNames("sdmf") : nm \notin DOMAIN v.hdr.offs \/ v.hdr.offs[nm] # H.offs[nm])
+            THEN Fail("U_unpack_header")
+       ELSE R("", img, ws, rs)
+
 Verdict(e) ==
   CASE e.ev = "NewWriter" -> IF e.res = "ok" THEN R("", img, With(ws, e.w, TraceWriter(e)), rs) ELSE Fail("W_constructor_failed")
     [] e.ev = "Put"       -> VPut(e)
@@ -235,6 +251,7 @@ Verdict(e) ==
     [] e.ev = "Pack"      -> VPack(e)
     [] e.ev = "Read"      -> VRead(e)
     [] e.ev = "Unpack"    -> VUnpack(e)
+    [] e.ev = "UnpackSmall" -> VUnpackSmall(e)
     [] e.ev = "Damage"    -> R("", Img(e.img), ws, [x \in {} |-> 0])
     [] e.ev = "Crash"     -> Fail("harness_unexpected_exception_" \o e.exc)
     [] OTHER              -> Fail("unknown_event")
